@@ -3,6 +3,7 @@ package c06
 import (
 	"fmt"
 	"io"
+	"io/fs"
 	"math"
 	"os"
 	"path"
@@ -49,6 +50,8 @@ type zoneCase struct {
 	UseOS       bool // lay the include tree out as real files under a scratch directory (no include FS)
 	Renderings  []rendering
 	Classes     []string // rendering devices and line shapes used (histogram only)
+	// fault (sub-check include-read-fault, set by its oracle only): Read of one file fails
+	fault *faultPlan
 }
 
 type onlyReader struct{ r io.Reader }
@@ -124,6 +127,12 @@ func osEligible(z *zm.Zone) bool {
 func parseZone(c *zoneCase, files map[string]string, limit int) ([]dns.RR, error) {
 	top := files[c.Zone.FileName]
 	var rd io.Reader = strings.NewReader(top)
+	if c.fault != nil && c.fault.File == c.Zone.FileName {
+		rd = &faultReader{r: rd, plan: c.fault, left: c.fault.After}
+		if c.Reader == 0 {
+			rd = onlyReader{rd}
+		}
+	}
 	switch c.Reader {
 	case 1:
 		rd = onlyReader{rd}
@@ -183,7 +192,11 @@ func parseZone(c *zoneCase, files map[string]string, limit int) ([]dns.RR, error
 		for _, d := range decoys(&c.Zone) {
 			m[d] = &fstest.MapFile{Data: []byte(decoyText)}
 		}
-		zp.SetIncludeFS(m)
+		var fsys fs.FS = m
+		if c.fault != nil {
+			fsys = faultFS{FS: m, plan: c.fault}
+		}
+		zp.SetIncludeFS(fsys)
 	}
 	// the parse runs under a watchdog (orders of magnitude above its normal cost): a parser that
 	// does not come back is a violation, not a reason for the whole run to time out
@@ -266,8 +279,8 @@ func nontrivialZone(z *zm.Zone) bool {
 // modelClasses: which model features the zone has (histogram only).
 func modelClasses(z *zm.Zone) []string {
 	seen := map[string]bool{}
-	var walk func(items []zm.Item)
-	walk = func(items []zm.Item) {
+	var walk func(file string, items []zm.Item)
+	walk = func(file string, items []zm.Item) {
 		for _, it := range items {
 			switch it.Kind {
 			case zm.KRec:
@@ -302,6 +315,15 @@ func modelClasses(z *zm.Zone) []string {
 						seen["gen:next-step-would-overflow"] = true
 					}
 				}
+				if len(g.LHS) > 0 && g.LHS[0].Kind == zm.TLit && keywordLike(g.LHS[0].Lit) {
+					seen["gen:owner-template-begins-with-keyword-like-word"] = true
+					if u := strings.ToUpper(g.LHS[0].Lit); strings.HasPrefix(u, "TYPE") || strings.HasPrefix(u, "CLASS") {
+						seen["gen:owner-template-begins-with-TYPE-or-CLASS"] = true
+					}
+				}
+				if len(g.RHS) > 0 && g.RHS[0].Kind == zm.TLit && keywordLike(g.RHS[0].Lit) {
+					seen["gen:rdata-template-begins-with-keyword-like-word"] = true
+				}
 				for _, tp := range []zm.Template{g.LHS, g.RHS} {
 					for _, p := range tp {
 						switch p.Kind {
@@ -327,6 +349,9 @@ func modelClasses(z *zm.Zone) []string {
 				}
 			case zm.KInclude:
 				seen["dir:$INCLUDE"] = true
+				if _, ok := z.Files[zm.ResolveInclude(file, it.File)]; !ok {
+					seen["inc:names-a-directory"] = true
+				}
 				if it.ViaGenerate {
 					seen["inc:via-generate"] = true
 				}
@@ -348,9 +373,9 @@ func modelClasses(z *zm.Zone) []string {
 			}
 		}
 	}
-	walk(z.Items)
-	for _, f := range z.Files {
-		walk(f)
+	walk(z.FileName, z.Items)
+	for name, f := range z.Files {
+		walk(name, f)
 	}
 	seen[fmt.Sprintf("inc:depth=%d", includeDepth(z, z.FileName, 0))] = true
 	if strings.Contains(strings.TrimLeft(path.Clean(z.FileName), "/"), "/") {
@@ -511,7 +536,13 @@ func evalZone(cp *zoneCase, den *zm.Denotation) error {
 			if perr == nil {
 				return pbt.Errf("rendering %d: the zone must end in an error (%s) after %d records, parser returned %d records and no error\n%s", i, den.Err, len(den.Recs), len(got), showRendering(&c, r))
 			}
-			if err := zm.Compare(got, den.Recs); err != nil {
+			want := den.Recs
+			if k := len(got); k < len(want) && want[k].MayFail {
+				// a record that omits its TTL where the file has no TTL source of its own may be
+				// refused (see CompareOutcome): the parse may end there, before the expected error
+				want = want[:k]
+			}
+			if err := zm.Compare(got, want); err != nil {
 				return pbt.Errf("rendering %d (before the expected %s error): %v\n%s", i, den.Err, err, showRendering(&c, r))
 			}
 		}
@@ -615,10 +646,62 @@ func finish(t *rapid.T, z *zm.Zone, nrender int) zoneCase {
 // thousands of steps (a size class, seconds per case on a loaded machine) are left to the rapid runs.
 func underFuzz() bool { return os.Getenv("VERIF_FUZZ") != "" }
 
+// templateWords: words a lexer could take for something else than part of a name - type and class
+// mnemonics, TYPEnnn / CLASSnnn and longer words that begin like them, TTL spellings, directive
+// names - in either case. The zone generator writes such labels in record lines and directive
+// arguments; the literal part of its $GENERATE templates comes from eight fixed words, so they are
+// put there afterwards (the template of a $GENERATE is "owner [ttl] [class] type rdata" like any
+// record line, and its owner may be called anything).
+var templateWords = []string{"type", "class", "TYPE", "Class", "tYpE-", "classroom-", "typewriter", "TYPESET", "CLASSES", "type1", "TYPE65534", "class1", "CLASS255",
+	"in", "IN", "ch", "hs", "any", "none", "a", "A", "mx", "ns", "Txt", "soa", "cname", "nsec3", "ANY", "1h", "3600", "1w2d", "0", "ttl", "TTL", "origin", "include", "generate"}
+
+// keywordTemplates rewrites the leading literal of $GENERATE templates (owner side in three
+// directives of ten, name RDATA in one of ten) into one of templateWords. A rewrite that makes
+// the model invalid (a completed name over 255 octets) is taken back.
+func keywordTemplates(t *rapid.T, z *zm.Zone) {
+	type undo struct {
+		p   *zm.TPart
+		old string
+	}
+	var undos []undo
+	set := func(p *zm.TPart) {
+		undos = append(undos, undo{p, p.Lit})
+		p.Lit = templateWords[rapid.IntRange(0, len(templateWords)-1).Draw(t, "kww")]
+	}
+	for _, f := range z.FileNames() {
+		items := z.FileItems(f)
+		for i := range items {
+			g := items[i].Gen
+			if items[i].Kind != zm.KGenerate || g == nil {
+				continue
+			}
+			k := rapid.IntRange(0, 9).Draw(t, "kwt")
+			if k < 3 && len(g.LHS) > 0 && g.LHS[0].Kind == zm.TLit {
+				set(&g.LHS[0])
+			}
+			if (k == 2 || k == 3) && len(g.RHS) > 0 && g.RHS[0].Kind == zm.TLit {
+				switch g.Type {
+				case zm.TCNAME, zm.TNS, zm.TPTR, zm.TDNAME:
+					set(&g.RHS[0])
+				}
+			}
+		}
+	}
+	if len(undos) == 0 {
+		return
+	}
+	if _, err := zm.Denote(z); err != nil {
+		for _, u := range undos {
+			u.p.Lit = u.old
+		}
+	}
+}
+
 func genZoneCase(t *rapid.T) zoneCase {
 	o := genOpts()
 	o.BigGenerate = pbt.Thorough() && rapid.IntRange(0, 99).Draw(t, "big") == 99 && !underFuzz()
 	z := zm.GenZone(t, o)
+	keywordTemplates(t, z)
 	return finish(t, z, rapid.IntRange(2, 3).Draw(t, "nrender"))
 }
 
@@ -631,6 +714,7 @@ func genGenerateCase(t *rapid.T) zoneCase {
 	o.OnlyGenerate = true
 	o.BigGenerate = rapid.IntRange(0, 40).Draw(t, "big") >= 39 && !underFuzz()
 	z := zm.GenZone(t, o)
+	keywordTemplates(t, z)
 	return finish(t, z, 2)
 }
 
@@ -642,7 +726,39 @@ func genIncludeCase(t *rapid.T) zoneCase {
 	o.IncludeHeavy = true
 	o.DeepChain = rapid.IntRange(0, 9).Draw(t, "deep") >= 8
 	z := zm.GenZone(t, o)
+	keywordTemplates(t, z)
+	if rapid.IntRange(0, 9).Draw(t, "incdir") == 0 {
+		directoryInclude(t, z)
+	}
 	return finish(t, z, 2)
+}
+
+// directoryInclude ends the top-level file with a $INCLUDE that names a directory of the include
+// tree instead of a file: its own directory ("." / "./") or the directory part of one of its
+// $INCLUDE lines. A directory can be opened (in an fs.FS and on disk) but it cannot be read, so
+// there are no records to splice in: the denotation is the records before the line and an error
+// (the model's "include-open": the name is not a file of the tree). Only zones that have include
+// files (an include FS or a scratch directory is then in place; nothing outside it is touched).
+func directoryInclude(t *rapid.T, z *zm.Zone) {
+	if len(z.Files) == 0 {
+		return
+	}
+	if den, err := zm.Denote(z); err != nil || den.Err != "" {
+		return // the file already ends in an error
+	}
+	dirs := []string{".", "./"}
+	for _, it := range z.Items {
+		if it.Kind == zm.KInclude && !it.ViaGenerate {
+			if d := path.Dir(it.File); d != "." && d != "/" {
+				dirs = append(dirs, d, d+"/")
+			}
+		}
+	}
+	d := dirs[rapid.IntRange(0, len(dirs)-1).Draw(t, "dirname")]
+	if _, isFile := z.Files[zm.ResolveInclude(z.FileName, d)]; isFile {
+		return
+	}
+	z.Items = append(z.Items, zm.Item{Kind: zm.KInclude, File: d})
 }
 
 // ---------------------------------------------------------------------------------------------
